@@ -80,6 +80,10 @@ pub fn corpus_stage(cfg: &Cfg, rep: &mut Report, pfx: &'static str, stage: &'sta
                 cands.push(o.to_vec());
                 cands.push(o.to_ascii_lowercase());
             }
+            // words that are keywords for other parameter types: to an enumeration they are character data like any other
+            for w in [&b"DEF"[..], b"DEFault", b"def1", b"MIN", b"MAXimum", b"UP", b"DOWN", b"ON", b"OFF", b"AUTO", b"ONCE", b"INF", b"NAN", b"TRUE", b"NONE"] {
+                cands.push(w.to_vec());
+            }
             for c in &cands {
                 bump(ctx, 1);
                 if c.is_empty() || c.len() > 12 {
